@@ -30,6 +30,9 @@ var timeAllowed = map[string]bool{
 	"(time.Duration).Microseconds": true,
 	"(time.Duration).Nanoseconds":  true,
 	"(time.Duration).Abs":          true,
+	"(time.Duration).Truncate":     true,
+	"(time.Duration).Round":        true,
+	"time.lessThanHalf":            true,
 	"(*time.Duration).Seconds":     true,
 	"time.init":                    true,
 }
@@ -753,6 +756,10 @@ var intrinsics = map[string]intrinsicFn{
 			return int64(1_700_000_000)
 		}
 		return rawInt(i.path.base(), types.Int64)
+	},
+	"verifClockNanos": func(i *interpreter, a []value) value {
+		// a reading of the real clock (Unix ns), ordered with every other reading of the path
+		return rawInt(Sub(i.path.nowNs(), BigC(unixOffsetNs)), types.Int64)
 	},
 	"verifSleepSeconds": func(i *interpreter, a []value) value {
 		p := i.path
